@@ -117,8 +117,28 @@ def run_tf(cases):
 def run(ctx):
     rng = ctx.rng
     cases = []
-    for _ in range(ctx.pick(150, 1500)):
-        case, ops = gen_case(rng)
+    # planned cases, every run: NaN / +inf / −inf / a huge value stored at the coordinates of missing points (confidence ±0) next to present ones, and each
+    # shared operation that has to deal with them as the first operation
+    planned = []
+    for opl in ([{"k": "zero_filled"}], [{"k": "copy"}, {"k": "zero_filled"}], [{"k": "select_frames", "ixs": [1, 0]}, {"k": "zero_filled"}], [{"k": "get_points", "ixs": [1, 0]}], [{"k": "slice_step", "by": 2}, {"k": "zero_filled"}]):
+        for dims in (2, 3):
+            case, _ = gen_case(rng)
+            while not (case["body"]["frames"] >= 2 and case["body"]["people"] >= 1 and case["body"]["points"] >= 2 and case["body"]["dims"] == dims):
+                case, _ = gen_case(rng)
+            b = case["body"]
+            garbage = [0x7FC00000, 0x7F800000, 0xFF800000, 0x7F7FFFFF]
+            for j in range(b["frames"] * b["people"] * b["points"]):
+                if j % 3 == 1:
+                    b["conf"][j] = rng.choice([0, 0x80000000])
+                    for d in range(dims):
+                        b["data"][j * dims + d] = garbage[(j + d) % 4]
+                else:
+                    b["conf"][j] = 0x3F800000
+                    for d in range(dims):
+                        b["data"][j * dims + d] = int(np.float32(rng.randint(-5, 5)).view(np.uint32))
+            planned.append((case, opl))
+    for it in range(ctx.pick(150, 1500) + len(planned)):
+        case, ops = planned[it] if it < len(planned) else gen_case(rng)
         raw = refenc.v02(case)
         for route in ("read", "convert"):
             vals = np.array(case["body"]["data"], dtype=np.uint32).view(np.float32).astype(np.float64)
